@@ -21,8 +21,9 @@ RULES = {
     'R10': 'trie iteration is in ascending unsigned-byte order (as strcmp): the order in which trie_node_next visits child indexes, mapped back through the character-to-index function used by new_child_node, is 0..255 ascending (evaluated exhaustively over all 256 byte values); the sibling scan continues that same order',
     'R11': 'trie notifier add and delete resolve the key the same way (exact lookup)',
     'R12': 'looking a key up does not change the map: the lookup/get functions of all three implementations store to no map or node field and call no list mutator, allocator or release function (an iteration in progress follows those links)',
+    'R13': 'a notifier is not looked at after its callback was called: in every loop that walks a notifier list and calls the callbacks, no field of the notifier and no link of its list element is read on the way from the call to the next iteration (the callback may have unregistered - freed - its own notifier); the trie, whose notifiers are reference counted, holds a reference instead',
 }
-FLOORS = {'R1': 3, 'R2': 6, 'R3': 6, 'R4': 6, 'R5': 9, 'R6': 3, 'R7': 4, 'R8': 3, 'R9': 1, 'R10': 3, 'R11': 1, 'R12': 6}
+FLOORS = {'R1': 3, 'R2': 6, 'R3': 6, 'R4': 6, 'R5': 9, 'R6': 3, 'R7': 4, 'R8': 3, 'R9': 1, 'R10': 3, 'R11': 1, 'R12': 6, 'R13': 4}
 
 MAPS = {
     'hashtable': dict(file='lib/hashtable.c', create='qb_hashtable_create', rm='hashtable_rm_with_hash', put='hashtable_put',
@@ -61,6 +62,7 @@ def run(ctx):
         r5(ctx, name, m)
     r6(ctx)
     r7(ctx)
+    r13(ctx)
     r8(ctx)
     r9(ctx)
     r10(ctx)
@@ -216,7 +218,16 @@ def r5(ctx, name, m):
     evp = evp[0] if evp else None
     if evp is None:
         raise AnalysisBroken('%s: event parameter not found' % m['notify'])
-    cbs = list(f.calls('qb_map_notifier::callback'))
+    # a call of the notifier's callback: through the slot, or through a local that holds a copy of it
+    def copy_of(varname, field):
+        ds = [st for st in f.events() if (st.kind == 'STORE' and estr(st.lhs) == varname) or (st.kind == 'DECL' and st.d['var'] == varname and 'init' in st.d)]
+        return bool(ds) and all(last_field(st.rhs if st.kind == 'STORE' else st.d['init']) == ('qb_map_notifier', field) for st in ds)
+    cbs = [ev for ev in f.events('CALL') if ev.callee == 'qb_map_notifier::callback' or
+           ((ev.callee or '').startswith('var:') and copy_of(ev.callee[4:], 'callback'))]
+
+    def is_events(e):
+        u = unwrap(e)
+        return field_is(e, 'events') or (u.get('k') == 'var' and u.get('sc') == 'l' and copy_of(u['n'], 'events'))
     if len(cbs) < 2:
         raise AnalysisBroken('%s: %d callback sites' % (m['notify'], len(cbs)))
     free_const = None
@@ -225,7 +236,7 @@ def r5(ctx, name, m):
         if estr(a0) == evp:
             def sub(at, fb):
                 l = unwrap(at.l)
-                return at.op == '!=' and at.rc == 0 and l.get('k') == 'bin' and l['op'] == '&' and field_is(l['l'], 'events') and estr(l['r']) == evp
+                return at.op == '!=' and at.rc == 0 and l.get('k') == 'bin' and l['op'] == '&' and is_events(l['l']) and estr(l['r']) == evp
             ok = f.uncut_path(cb, sub) is None
             ctx.check('R5', '%s:event-callback-subscribed' % name, ok, cb, 'callback(event) only for notifiers subscribed to that event',
                       'a notifier is called for an event it did not subscribe to')
@@ -234,7 +245,7 @@ def r5(ctx, name, m):
 
             def subfree(at, fb):
                 l = unwrap(at.l)
-                return at.op == '!=' and at.rc == 0 and l.get('k') == 'bin' and l['op'] == '&' and field_is(l['l'], 'events') and cval(unwrap(l['r'])) == free_const
+                return at.op == '!=' and at.rc == 0 and l.get('k') == 'bin' and l['op'] == '&' and is_events(l['l']) and cval(unwrap(l['r'])) == free_const
             ok = f.uncut_path(cb, subfree) is None
             ctx.check('R5', '%s:free-callback-subscribed' % name, ok, cb, 'the FREE callback only for notifiers subscribed to FREE',
                       'the value-release callback is invoked for a notifier that did not ask for it')
@@ -519,3 +530,67 @@ def r12(ctx):
                   '%s changes nothing in the map' % fn,
                   '%s modifies the map while looking a key up (%s): a get issued during an iteration reorders / relinks what the iterator is walking - keys are returned twice or skipped' % (
                       fn, repr(bad[0])[:90] if bad else ''))
+
+
+def r13(ctx):
+    prog = ctx.prog
+    n = 0
+    for fname in ('hashtable_notify', 'skiplist_notify'):
+        f = prog.fn(fname)
+        loops = f.natural_loops()
+        calls = [ev for ev in f.events('CALL') if ev.callee == 'qb_map_notifier::callback' or (ev.callee or '').startswith('var:')]
+        if not calls:
+            raise AnalysisBroken('%s: no notifier callback call' % fname)
+        # the notifier variable(s): locals of type struct qb_map_notifier *; the list cursors: struct qb_list_head * locals assigned in the loops
+        tnv = {ev.d['var'] for ev in f.events('DECL') if 'qb_map_notifier' in str(ev.d.get('ty', ''))}
+        for ev in calls:
+            body = None
+            for hdr, b in loops.items():
+                if ev.blk in b and (body is None or len(b) < len(body[1])):
+                    body = (hdr, b)
+            if body is None:
+                continue
+            hdr, blocks = body
+            n += 1
+
+            def touches(x):
+                if x.kind not in ('LOAD', 'STORE', 'CALL', 'DECL'):
+                    return False
+                roots = [x.d.get('e'), x.d.get('rhs'), x.d.get('init')] + (list(x.args) if x.kind == 'CALL' else [])
+                for r_ in roots:
+                    for nn in walk(r_ or {}):
+                        if nn.get('k') == 'mem' and nn.get('arrow'):
+                            b_ = unwrap(nn['b'])
+                            if b_.get('k') == 'var' and (b_['n'] in tnv or (nn.get('f') == 'next' and 'qb_list_head' in str(b_.get('ty', '')) and b_['n'] in cursors)):
+                                return True
+                return False
+            # list cursor whose element is the notifier: the variable in qb_list_entry(<cursor>, ...) that defines tn in this loop
+            cursors = set()
+            for st in f.events('STORE'):
+                if st.blk in blocks and unwrap(st.lhs).get('k') == 'var' and unwrap(st.lhs)['n'] in tnv:
+                    for nn in walk(st.rhs):
+                        if nn.get('k') == 'var' and 'qb_list_head' in str(nn.get('ty', '')):
+                            cursors.add(nn['n'])
+            def uses(x, var, only_next):
+                roots = [x.d.get('e'), x.d.get('rhs'), x.d.get('init')] + (list(x.args) if x.kind == 'CALL' else [])
+                for r_ in roots:
+                    for nn in walk(r_ or {}):
+                        if nn.get('k') == 'mem' and nn.get('arrow'):
+                            b_ = unwrap(nn['b'])
+                            if b_.get('k') == 'var' and b_['n'] == var and (not only_next or nn.get('f') == 'next'):
+                                return True
+                return False
+            hits = []
+            for (var, only_next) in [(v, False) for v in sorted(tnv)] + [(v, True) for v in sorted(cursors)]:
+                # until the variable is given a new value (the next element), what it points to is the notifier just called
+                def redefined(x, var=var):
+                    return x.kind == 'STORE' and unwrap(x.lhs).get('k') == 'var' and unwrap(x.lhs)['n'] == var and not uses(x, var, only_next)
+                h_, _e, _n = f.search(('after', ev), goal=lambda x, var=var, only_next=only_next: x.kind in ('LOAD', 'STORE', 'CALL', 'DECL') and uses(x, var, only_next),
+                                      stop=redefined, edge_filter=lambda fb, t, lab: t in blocks)
+                hits += h_
+            ctx.check('R13', '%s:notifier-not-used-after-its-callback' % fname, not hits, ev,
+                      'nothing of the notifier (or of its list link) is read after the callback returned',
+                      '%s reads the notifier again after calling it (%s): a callback that unregisters its own notifier has freed it' % (
+                          fname, '; '.join(sorted({'%s@%d' % (h[0].kind, h[0].ln) for h in hits}))[:120]))
+    if n < 4:
+        raise AnalysisBroken('R13: only %d callback sites in notifier loops' % n)
